@@ -415,6 +415,7 @@ pub fn record(args: &[String]) -> i32 {
     let seed: u64 = arg_value(args, "--seed").and_then(|v| v.parse().ok()).unwrap_or(1);
     let with_q = arg_flag(args, "--queries");
     let with_c15 = arg_flag(args, "--c15");
+    let merged = arg_flag(args, "--merged");
     let pool = if with_c15 { c15_pool() } else { big_pool() };
     let mut out = open_out(outp);
     writeln!(out, "{}", json!({"event": "pool", "pool": pool})).unwrap();
@@ -425,7 +426,7 @@ pub fn record(args: &[String]) -> i32 {
     let mut steps = 0usize;
     let mut nq = 0usize;
     for h in 0..hist {
-        let mut w = match World::build(&pool, false) {
+        let mut w = match World::build(&pool, merged) {
             Ok(w) => w,
             Err(e) => {
                 eprintln!("cannot build the pool: {}", e);
@@ -455,7 +456,11 @@ pub fn record(args: &[String]) -> i32 {
             hist.push(c.clone());
             let outc = w.exec_mut(&c);
             let post = w.project();
-            writeln!(out, "{}", json!({"event": "call", "call": c, "out": outc, "pre": pre, "post": post})).unwrap();
+            if merged {
+                writeln!(out, "{}", json!({"event": "call", "merged": true, "call": c, "out": outc, "pre": pre, "post": post})).unwrap();
+            } else {
+                writeln!(out, "{}", json!({"event": "call", "call": c, "out": outc, "pre": pre, "post": post})).unwrap();
+            }
             out.flush().unwrap();
             steps += 1;
             if with_q && state_only(&post) != state_only(&pre) {
